@@ -46,7 +46,8 @@ impl Sub for Reorder {
             max_chars: 16,
             with_user: false,
             with_mapping: false,
-            space_only_if_exclusive: false,
+            // ignore_space (first option set of the case) only where the reference lattice is defined for it
+            space_only_if_exclusive: true,
         };
         (tok_case(p), vec(0u8..8, 0..=12))
             .prop_map(|(base, raw)| {
@@ -60,7 +61,7 @@ impl Sub for Reorder {
             .boxed()
     }
     fn rule(&self) -> String {
-        "exactly the reorder tool's loop (init counter; per line: reset, tokenize, update counts) over 0-12 generated lines incl. empty and repeated lines, default options; \
+        "exactly the reorder tool's loop (init counter; per line: reset, tokenize, update counts) over 0-12 generated lines incl. empty and repeated lines, generated options (ignore_space on dictionaries meeting the C12 precondition, max_grouping_len); \
          oracle: after every prefix of the history the reported id lists equal the reference recount of connection-cost evaluations ((predecessor, candidate) pairs + (predecessor, EOS)), \
          each id != 0 exactly once, ordered by (count desc, id asc), probabilities == count/total; the final lists are accepted by map_connection_ids_from_iter and the mapped \
          dictionary tokenizes the lines identically modulo the permutation; non-trivial = ≥2 non-empty lines, ≥2 ids with different counts and a tie; distinct = hash(files, lines)".into()
@@ -72,7 +73,9 @@ impl Sub for Reorder {
         let nl = rd.conn.num_left;
         let nr = rd.conn.num_right;
         let dict = build_case_dict(&files, None, None, false)?;
-        let tokenizer = vibrato::Tokenizer::new(dict);
+        // the reorder tool sets no option; library users may: the first option set of the case is used
+        let o: TokOpts = b.opts.first().cloned().unwrap_or_default();
+        let tokenizer = crate::refmodel::make_tokenizer_h(dict, o.ignore_space, o.max_grouping_len, o.history)?;
         let mut w = tokenizer.new_worker();
         guard(|| w.init_connid_counter()).map_err(|p| format!("init_connid_counter: {p}"))?;
         let mut lc = vec![0u64; nl];
@@ -109,7 +112,7 @@ impl Sub for Reorder {
                 w.update_connid_counts();
             })
             .map_err(|p| format!("line {i} {line:?}: {p}"))?;
-            let refl = rd.lattice(line, false, 0);
+            let refl = rd.lattice(line, o.ignore_space, o.max_grouping_len);
             for (a, c) in lc.iter_mut().zip(&refl.lid_count) {
                 *a += c;
             }
@@ -128,7 +131,7 @@ impl Sub for Reorder {
             let d0 = build_case_dict(&files, None, None, false)?;
             let d1 = apply_all(build_case_dict(&files, None, None, false)?, &[DOp::Map(lmap.clone(), rmap.clone())])
                 .map_err(|e| format!("reorder output rejected by map_connection_ids_from_iter: {e}"))?;
-            let opts = [TokOpts::default()];
+            let opts = [o.clone()];
             let o0 = observe(d0, &b.sentences, &opts)?;
             let o1 = observe(d1, &b.sentences, &opts)?;
             let (pl, pr) = (new_ids(&lmap), new_ids(&rmap));
@@ -142,7 +145,7 @@ impl Sub for Reorder {
                             && c.left_id == pl[usize::from(a.left_id)]
                             && c.right_id == pr[usize::from(a.right_id)]
                     });
-                if !same && rd.lattice(s, false, 0).eos_npaths == 1 {
+                if !same && rd.lattice(s, o.ignore_space, o.max_grouping_len).eos_npaths == 1 {
                     return Err(format!("after reorder->map the sentence {s:?} tokenizes differently"));
                 }
             }
@@ -156,6 +159,9 @@ impl Sub for Reorder {
         ctx.label_if(case.lines.contains(&usize::MAX), "has_empty_line");
         ctx.label_if(case.lines.first() == Some(&usize::MAX), "empty_first_line");
         ctx.label_if(case.lines.is_empty(), "no_lines");
+        ctx.label_if(o.ignore_space, "ignore_space");
+        ctx.label_if(o.ignore_space && case.lines.iter().any(|&l| l != usize::MAX && b.sentences[l].ends_with(|c: char| crate::gen::dict::SPACE_CHARS.contains(&c))), "ignore_space_and_trailing_space");
+        ctx.label_if(o.max_grouping_len != 0, "max_grouping_len_set");
         ctx.label_if(has_tie, "count_tie");
         if nonempty >= 2 && distinct_counts.len() >= 2 && has_tie {
             ctx.nontrivial(&(&files, &case.lines, &b.sentences));
@@ -169,7 +175,7 @@ impl Sub for Reorder {
 pub fn run(opts: &Opts) -> Report {
     let mut rep = Report::new("C13", "exploration");
     rep.assumptions = vec![
-        "default tokenizer options, as the reorder tool sets none".into(),
+        "the reorder tool sets no option; library users may: each case uses its first generated option set (ignore_space only on dictionaries meeting the C12 precondition)".into(),
         "probabilities are compared with count/total to 1e-12 relative; they are NaN (and skipped) when nothing was counted".into(),
     ];
     let a = Reorder;
